@@ -1,6 +1,7 @@
 import ERP.Spec.Lifecycle
 import ERP.Gen.Consts
 import ERP.Lemmas.Monad
+import ERP.Lemmas.GenTies
 /-! # C11 — Filtering is gated by the print lifecycle -/
 namespace ERP.C11
 open ERP
